@@ -307,6 +307,29 @@ def findMany (s : State) (d : Int) : List Pair → State × List Int
     let r2 := findMany r1.1 d r
     (r2.1, r1.2 :: r2.2)
 
+/-! ## One group edit at the granularity of its announcements
+
+`BaseDictObject.__setitem__/__delitem__/clear/update` change the dict FIRST and then post, in this order, the specific
+notification (`Groups.GroupSet` / `GroupDeleted` / `Cleared` / `Updated`) and - through `self.dirty = True` -
+`Groups.Changed`.  At every post the Groups object's own `selfNotificationCallback` (registered under `(None, self)`,
+which the centre serves before the observers registered by name) destroys the tables whose registration lists the
+notification; after it the observers of that notification run.  `announce` is that loop, with an observer that looks
+kerning up (`Kerning.find` for each of `pairs`) inside every callback. -/
+
+/-- the posts of one edit, in order: (name, what the observer read inside its callback) -/
+def announce (reg : Destr) (pairs : List Pair) (d : Int) (s : State) : List String → State × List (String × List Int)
+  | [] => (s, [])
+  | n :: rest =>
+    let s1 := if destroys reg n then evict s else s
+    let r := findMany s1 d pairs
+    let r2 := announce reg pairs d r.1 rest
+    (r2.1, (n, r.2) :: r2.2)
+
+/-- a group edit seen by such an observer: the new dict is in place, then the announcements -/
+def editObserved (reg : Destr) (pairs : List Pair) (d : Int) (s : State) (g' : GroupsD) (posts : List String) :
+    State × List (String × List Int) :=
+  announce reg pairs d { s with c := { s.c with groups := g' } } posts
+
 /-! ## Lazy load and reload (objects/font.py) -/
 
 /-- `Font._loadKerningAndGroups` when nothing is loaded yet.  The objects are created before the
@@ -386,6 +409,34 @@ def run (s : State) : List Op → State × List Out
     let r1 := step s op
     let r2 := run r1.1 r
     (r2.1, r1.2 :: r2.2)
+
+/-! ## A group edit with a watcher (tie of `announce` to the code: driver op `watch`) -/
+
+/-- the notifications a `BaseDictObject` mutator posts once the dict has changed, in order -/
+def postsOf : Op → List String
+  | .gset _ _ => ["Groups.GroupSet", "Groups.Changed"]
+  | .gdel _ => ["Groups.GroupDeleted", "Groups.Changed"]
+  | .gclear => ["Groups.Cleared", "Groups.Changed"]
+  | .gupdate _ => ["Groups.Updated", "Groups.Changed"]
+  | _ => []
+
+/-- the mutator returns (or raises) before it changes or posts anything -/
+def silentEdit (s : State) : Op → Bool
+  | .gset n ms => AL.get? s.c.groups n = some ms
+  | .gdel n => !AL.contains s.c.groups n
+  | .gclear => s.c.groups.isEmpty
+  | .gupdate _ => false
+  | _ => true
+
+/-- a group edit of a font whose groups are loaded, with an observer of every notification of the edit that looks
+`pairs` up inside each callback: (state, the edit's own result, what the observer read at each announcement) -/
+def stepWatched (reg : Destr) (pairs : List Pair) (d : Int) (s : State) (op : Op) :
+    State × Out × List (String × List Int) :=
+  let r := stepLoaded s op
+  if silentEdit s op then (r.1, r.2, [])
+  else
+    let w := editObserved reg pairs d s r.1.c.groups (postsOf op)
+    (w.1, r.2, w.2)
 
 end Kern
 end DefconModel
